@@ -72,7 +72,9 @@ CLAIMED["C05"] = dict(
     technique="Coq proof (invariant over all request histories of a sequential server model composed of the library models: no panic under a lock, restart included) + real-server request histories",
     text="C05_no_panic: for every finite history of the six RPC methods with arbitrary strings and ids, the internal updater steps and restarts on the saved files, every request is answered (or, for "
          "RegisterWord{Guess} on an inconsistent pair only, fails before touching anything shared) and the invariant holds afterwards, so no mutex is poisoned and no background task dies; a conversion's answer is a function of "
-         "(effective dictionary, learned counts) only. Rests on C01/C02 (search total), C12 (guessed entries conjugate), C17 (romaji total), and on the proof that a restore only yields entries the server held (no line injection).",
+         "(effective dictionary, learned counts) only. Rests on C01/C02 (search total), C12 (guessed entries conjugate), C17 (romaji total), and on the proof that a restore only yields entries the server held (no line injection). "
+         "'Answered in bounded time' under concurrency is C05_no_deadlock: the lock protocol extracted from the server source on every run is ranked, so no interleaving of any number of requests with the tasks deadlocks; "
+         "each run also validates the extraction against the lock-site trace and drives concurrent clients with injected delays.",
     note="partial: runtime semantics trusted. " + SRV_NOTE, ref="6/C05")
 CLAIMED["C06"] = dict(
     technique="Coq proof (frequency-table algebra, context isolation by extensionality through the whole search, score shift, candidate-set invariance) + real-server histories + real ConversionFrequency at the expiry boundary",
@@ -81,8 +83,10 @@ CLAIMED["C06"] = dict(
     note="full for the logic; " + SRV_NOTE, ref="6/C06")
 CLAIMED["C07"] = dict(
     technique="Coq proof (composition of C03's offer theorem, the trie/key-set abstraction of C04 and dictionary monotonicity) + real-server histories with every guessable ending",
-    text="C07_registered_convertible: once applied, every conjugated form whose reading is spelled in the dictionary alphabet is offered for its reading (untruncated list); C07_only_adds; guessed classes always contain the form before ない.",
-    note="partial: 'within bounded time' is the asynchronous hand-off, observed by polling; the server's n = 100 truncation is outside the offer clause. " + SRV_NOTE, ref="6/C07")
+    text="C07_registered_convertible: once applied, every conjugated form whose reading is spelled in the dictionary alphabet is offered for its reading (untruncated list); C07_only_adds; guessed classes always contain the form before ない; "
+         "C07_no_deadlock: the updater and the handlers take their mutexes in one rank order on this run's extracted protocol. The real server is driven with registrations of every kind and ending; expected forms come from the real library AND from a "
+         "hand-written grammar corpus (行かない→行っ, 可愛い, 静かだ ...), so a defect in the conjugation itself is seen too; registrations race with conversions under injected delays.",
+    note="partial: 'within bounded time' = no deadlock (proved on the extracted protocol) + the asynchronous hand-off observed by polling; the server's n = 100 truncation is outside the offer clause. " + SRV_NOTE, ref="6/C07")
 CLAIMED["C08"] = dict(
     technique="Coq proof (restore = filter of printable entries, synced invariant, exact restart theorem) + kernel-checked refutation witness + real-server save/stop/start histories",
     text="C08_restore_filter (reading the written user dictionary back yields exactly its printable entries, nothing else), C08_idempotent, C08_synced_invariant, C08_restart_exact (standard map, key set, counts with time stamps and user "
